@@ -78,6 +78,8 @@ def interception(trace, base_trace):
 def run(tier, seed):
     ck = vlib.Check("C05", tier, seed, level="proof")
     ok_obl = ck.obligations(PROP)
+    if tier == "thorough":
+        ck.coqchk(["GV.Properties.C05"])
     gvh, err = ck.build_gvh()
     if gvh is None:
         ck.violation("harness does not build against /repo", {"kind": "build", "stderr": err[-3000:]}, no_input=True)
